@@ -363,3 +363,21 @@ Theorem C01_marlin_batch_complete :
       mbatch_check vk cs qs ev pfs chal vtape = Ok (true, rest, length (group_queries qs)).
 Proof. exact @marlin_batch_complete. Qed.
 Print Assumptions C01_marlin_batch_complete.
+
+(* SonicKZG10 batch flows: the proofs of batch_open (one open per point-label group on the shared challenge tape) are accepted by
+   Sonic's own batch_check for the true evaluations, whatever randomizers the verifier draws; same final tape position; one
+   randomizer per group.  The key facts are the ones trim establishes (C01_sonic_complete / strim_keys); every prover item and its
+   (commitment, bound) are consistent with the shift element of the bound, as commit makes them *)
+From PC Require Import Schemes.SonicLC Proofs.SonicLCFacts Proofs.SonicBatchComplete.
+Theorem C01_sonic_batch_complete :
+  forall (FO : FieldOps) (FL : FieldLaws FO) g gam h beta n m ck vk,
+    sck_g ck = gpowers g f1 beta n -> sck_gamma ck = gpowers gam f1 beta m ->
+    vk_g (svk_vk vk) = g -> vk_gamma_g (svk_vk vk) = gam -> vk_h (svk_vk vk) = h -> vk_beta_h (svk_vk vk) = fmul h beta ->
+    forall items cs qs ev chal vtape pfs rest,
+      smaps_agree g gam h beta m vk (s_poly_map items) (s_comm_map cs) ->
+      (forall pl pt labels, In (pl, (pt, labels)) (group_queries qs) -> sevals_true (s_poly_map items) (evals_map ev) pt labels) ->
+      (length (group_queries qs) <= length vtape)%nat ->
+      s_batch_open ck items qs chal = Ok (pfs, rest) ->
+      s_batch_check vk cs qs ev pfs chal vtape = Ok (true, rest, length (group_queries qs)).
+Proof. exact @sonic_batch_complete. Qed.
+Print Assumptions C01_sonic_batch_complete.
